@@ -293,6 +293,30 @@ def lit_value(term):
     return None
 
 
+_float_lits = {}
+
+
+def float_lit(c):
+    """a constant of sort F for a Python float literal; its exact value is an axiom"""
+    if c == 0.0:
+        return F_ZERO
+    if c == 1.0:
+        return F_ONE
+    name = 'flit_%s' % repr(c).replace('.', '_').replace('-', 'm').replace('+', 'p')
+    if name not in _float_lits:
+        _float_lits[name] = (z3.Const(name, F), c)
+    return _float_lits[name][0]
+
+
+def float_lit_axioms():
+    from fractions import Fraction
+    out = []
+    for name, (k, c) in _float_lits.items():
+        fr = Fraction(c)
+        out.append(fval(k) == z3.RealVal(fr.numerator) / z3.RealVal(fr.denominator))
+    return out
+
+
 def lit_axioms():
     out = []
     for s, c in _lit_cache.items():
@@ -307,7 +331,7 @@ _base_cache = {}
 
 
 def base_axioms():
-    key = (len(_lit_cache), len(_list_fns), len(_bag_size), len(_list_contains), len(SpecFun.registry))
+    key = (len(_lit_cache), len(_list_fns), len(_bag_size), len(_list_contains), len(SpecFun.registry), len(_float_lits))
     if key not in _base_cache:
         _base_cache.clear()
         _base_cache[key] = _base_axioms()
@@ -386,6 +410,7 @@ def _base_axioms():
     ax.append(z3.ForAll([a, b], z3.Implies(sofint(a) == sofint(b), a == b),
                         patterns=[z3.MultiPattern(sofint(a), sofint(b))]))
     ax.extend(lit_axioms())
+    ax.extend(float_lit_axioms())
     ax.extend(list_axioms())
     ax.extend(bag_axioms())
     ax.extend(contains_axioms())
